@@ -90,11 +90,11 @@ struct ViewTarget : Target {
         auto rnd = [&](Step& s) { for (int i = 0; i < 10; i++) s.a.push_back((long)r.below(24)); };
         { Step s; s.op = "setup"; rnd(s); p.steps.push_back(s); }
         size_t nv = 1 + r.below(3);
-        for (size_t i = 0; i < nv; i++) { Step s; s.op = "view"; rnd(s); s.a[0] = (long)r.below(4); if (r.chance(0.35)) s.a[0] = 2; p.steps.push_back(s); }
+        for (size_t i = 0; i < nv; i++) { Step s; s.op = "view"; rnd(s); s.a[0] = (long)r.below(5); if (r.chance(0.35)) s.a[0] = 2; p.steps.push_back(s); }
         size_t len = (tier == "thorough" ? 4 + r.below(40) : 3 + r.below(20));
         for (size_t k = 0; k < len; k++) {
             Step s; s.op = r.chance(0.75) ? "write" : (r.chance(0.4) ? "read" : r.chance(0.5) ? "view" : "assign_view"); rnd(s);
-            if (s.op == "view") { s.a[0] = (long)r.below(4); }
+            if (s.op == "view") { s.a[0] = (long)r.below(5); }
             s.a[1] = (long)r.below(64);
             p.steps.push_back(s);
         }
@@ -223,19 +223,27 @@ struct ViewTarget : Target {
     void add_view(const Step& st) {
         if (!arr || clients.size() >= 4) return;
         Client<E> c; size_t n = prod(shape); bool ok = false;
-        long kind = st.arg(0) % 4;
+        long kind = st.arg(0) % 5;
         if (kind == 0) {
             c.what = "flatten"; c.shape = {n}; for (size_t i = 0; i < n; i++) c.map.push_back(i);
             { Sut x; auto v = view::mutable_flatten(*arr); SimGuard g; ok = finish_view_rank<1>(c, v); }
         } else if (kind == 1) {
             // reshape to a seeded factorisation of n (rank 1..3)
-            Shape ns; size_t rem = n; long parts = 1 + st.arg(1) % 3;
+            Shape ns; size_t rem = n; long parts = 1 + st.arg(1) % 4;
             for (long i = 0; i + 1 < parts; i++) { size_t f = 1; for (size_t k = 1 + (size_t)st.arg(2 + (size_t)i) % 6; k >= 1; k--) if (rem % k == 0) { f = k; break; } ns.push_back(f); rem /= f; }
             ns.push_back(rem);
             c.what = "reshape" + shape_str(ns); c.shape = ns; for (size_t i = 0; i < n; i++) c.map.push_back(i);
             { Sut x; std::vector<size_t> dst(ns.begin(), ns.end()); auto v = view::mutable_reshape(*arr, dst); SimGuard g; ok = finish_view(c, v); }
         } else if (kind == 2) {
             ok = make_slice(c, st);
+        } else if (kind == 4) {
+            // raw-pointer flavour: a 1-d view over the source's BUFFER; buffer position f holds the logical element whose
+            // layout offset is f (identity for row-major sources)
+            c.what = "ref_ptr"; c.shape = {n}; c.map.assign(n, 0);
+            Shape lay = Tr::col_major ? col_major_strides(shape) : row_major_strides(shape);
+            for (size_t L = 0; L < n; L++) c.map[dot(unravel(L, shape), lay)] = L;
+            E* p; { Sut x; p = const_cast<E*>(Acc::data(*arr)); }
+            { Sut x; auto v = view::mutable_ref(p, n); SimGuard g; ok = finish_view_rank<1>(c, v); }
         } else {
             c.what = "ref"; c.shape = shape; for (size_t i = 0; i < n; i++) c.map.push_back(i);
             { Sut x; auto v = view::mutable_ref(*arr); SimGuard g; if constexpr (Tr::fixed_rank >= 0) ok = finish_view_rank<(size_t)Tr::fixed_rank>(c, v); else ok = finish_view(c, v); }
